@@ -7,7 +7,8 @@ For the masterchef end-blocker the chain of `return err` sites (x/masterchef/kee
 each fires, over an explicit environment record. `fixed = false` is the code before 9e8da3f. The Eden mint is modelled by
 its arithmetic (allocation per pool as a raw 10^18 decimal, `fixedMint = false` is the code before 932554d); the epochs
 begin-blocker and the estaking hook by their error propagation (`fixedHook = false`: before 7acf6c7); the protocol's fee
-split by its arithmetic and the params validation in front of it (`fixedValidation = false`: before f5b320c). Core-only.
+split by its arithmetic and the params validation in front of it (`fixedValidation = false`: before f5b320c); a zero Eden
+price returned an error before 5353f3f (`fixedPrice = false`). Core-only.
 -/
 namespace Elys.Blocks
 
@@ -19,7 +20,8 @@ structure Env where
   blocksPerYearNonzero : Bool -- parameter.TotalBlocksPerYear ≠ 0 (params validation enforces it)
   conversionFails : Bool      -- some fee conversion swap errors (e.g. oracle price of the fee denom missing)
   bankSendFails : Bool        -- a module-to-module send of an amount the sender was just observed to hold fails
-  edenPriceZero : Bool        -- GetEdenDenomPrice = 0 (it falls back to 1 · usdc price, so only a product rounding to 0)
+  edenPriceZero : Bool        -- GetEdenDenomPrice = 0: the ELYS price implied by the amm pool times the price of one base unit of USDC
+                              -- rounds to 0 at 18 decimals — reachable by users (a lopsided ELYS pool), NOT excluded by anything
   edenAllocs : List Int       -- the Eden allocation of this block for every pool with Eden rewards on (raw decimals, ≥ 0):
                               -- min(share of the yearly amount per block, APR cap · TVL / blocks per year / Eden price) — ANY value
 deriving Repr, DecidableEq, Inhabited
@@ -43,13 +45,13 @@ def edenMints (fixedMint : Bool) : List Int → Except Halt Unit
     | .ok _ => edenMints fixedMint as
     | .error h => .error h
 
-def endBlockOutcome (fixed : Bool) (e : Env) (fixedMint : Bool := true) : Except Halt Unit :=
+def endBlockOutcome (fixed : Bool) (e : Env) (fixedMint : Bool := true) (fixedPrice : Bool := true) : Except Halt Unit :=
   if !e.usdcEntry then .error .noUsdc
   else if e.conversionFails && !fixed then .error .conversion
   else if e.bankSendFails then .error .bankSend
   else if !e.revenueAddrValid then .error .revenueAddr
   else if !e.blocksPerYearNonzero then .error .blocksPerYear
-  else if e.edenPriceZero then .error .edenPrice
+  else if e.edenPriceZero then (if fixedPrice then .ok () else .error .edenPrice)   -- since 5353f3f: no Eden in such a block
   else edenMints fixedMint e.edenAllocs
 
 /-! ### epochs begin-blocker and the estaking hook -/
